@@ -40,6 +40,7 @@ type Draw struct {
 }
 
 type Violation struct {
+	Known  []string          `json:"known,omitempty"` // known-finding classes the path belongs to
 	Kind   string            `json:"kind"` // "assert", "panic", "deadlock"
 	Msg    string            `json:"msg"`
 	Pos    string            `json:"pos,omitempty"`
@@ -87,9 +88,11 @@ type pathState struct {
 	// threads
 	sched *scheduler
 
-	observed []obsEntry
-	notes    []string
-	wantSample bool
+	observed   []obsEntry
+	notes      []string
+	panicStack string
+	lastFrame  *frame
+	known      []string
 }
 
 type obsEntry struct {
@@ -275,7 +278,7 @@ func (p *pathState) assert(c *Term, kind, msg, pos string) {
 		panic(unsupported{"solver returned unknown on deciding query: " + msg})
 	}
 	model, order := p.modelOf(m)
-	v := Violation{Kind: kind, Msg: msg, Pos: pos, Model: model, Order: order, Notes: append([]string{}, p.notes...), Script: Script(cs)}
+	v := Violation{Kind: kind, Msg: msg, Pos: pos, Model: model, Order: order, Notes: append([]string{}, p.notes...), Script: Script(cs), Known: append([]string{}, p.known...)}
 	p.res.Violations = append(p.res.Violations, v)
 	// continue on the side where the assertion holds, if any
 	if c.isConst || p.sat(c, false) == rUnsat {
